@@ -178,6 +178,11 @@ def check_import(fn):
 
 def cmd_replay(doc):
     fn = doc["function"]
+    if doc.get("input", {}).get("eval_fact"):
+        import families
+        name = doc["input"]["eval_fact"]
+        r = families.run_eval(dict(names=[name]))["results"].get(name, dict(ok=False, detail="missing"))
+        return dict(fails=not r["ok"], function=fn, why="closed fact evaluated on the real modules", observed=str(r.get("detail"))[:400])
     if doc.get("input", {}).get("import_only"):
         imp = check_import(fn)
         return dict(fails=bool(imp), function=fn, **(imp or {}))
